@@ -722,3 +722,82 @@ def rf80(run):
                           'the remaining payload does not itself end in a zero byte)' % (lo, hi), line=loop['l'])
             break
     return n
+
+
+# ---------------------------------------------------------------------------------------------
+# RF82: the binary writer emits every non-default field of a memory operand
+# ---------------------------------------------------------------------------------------------
+
+def rf82(run):
+    import itertools
+    from lib import printexec as PE
+    from lib import regions as R
+    rule = 'RF82'
+    run.rule(rule, 'write_op, MIR_OP_MEM case, executed abstractly for the 32 combinations of zero / non-zero displacement, base, index, alias '
+                   'and nonalias: a non-zero displacement is written by write_int, a base and an index by write_reg (the index with its '
+                   'scale by write_uint), and when either alias name is present both names are written by write_name; the tag byte '
+                   'differs whenever the set of written fields differs (the reader takes the field set from the tag)')
+    tu = run.tu('mir')
+    f = tu.func('write_op')
+    run.functions_analysed.add(('mir', f.name))
+    sws = R.find_switches(f, lambda c: c.replace(' ', '').endswith('.mode'))
+    if not sws:
+        raise F.AnalysisBroken('write_op: switch on the operand mode not found')
+    reg = [r for r in R.switch_regions(f, sws[0]) if 'MIR_OP_MEM' in [c[0] for c in r['cases']]]
+    if not reg:
+        raise F.AnalysisBroken('write_op: no MIR_OP_MEM case')
+    stmts = reg[0]['stmts']
+    ty = dict(tu.enum('MIR_type_t'))
+    n = 0
+    tags = {}
+    for disp, base, index, alias, nonalias in itertools.product((0, 7), (0, 1), (0, 2), (0, 3), (0, 4)):
+        env = {'op.u.mem.disp': disp, 'op.u.mem.base': base, 'op.u.mem.index': index, 'op.u.mem.alias': alias, 'op.u.mem.nonalias': nonalias,
+               'op.u.mem.scale': 8, 'op.u.mem.type': ty['MIR_T_I64'], 'output_mem_len': 0}
+        log = []
+
+        def rec(name):
+            def fn(args, env_, ex, name=name):
+                v = ex.val(args[2], env_) if len(args) > 2 else None
+                log.append((name, v))
+                return 1
+            return fn
+        acc = {nm: rec(nm) for nm in ('put_byte', 'write_int', 'write_uint', 'write_reg', 'write_name', 'write_type')}
+        acc['MIR_reg_name'] = lambda a, e, x: ('reg', x.val(a[1], e))
+        acc['MIR_alias_name'] = lambda a, e, x: ('alias', x.val(a[1], e))
+        ex = PE.PrintExec(tu, {}, acc, {})
+        # values of accessor results are tuples: let the evaluator pass them through
+        for st in stmts:
+            r = ex.run(st, env)
+            if r in ('break', 'return'):
+                break
+        got = {}
+        for nm, v in log:
+            got.setdefault(nm, []).append(v)
+        why = None
+        if len(got.get('put_byte', [])) != 1 or not isinstance(got['put_byte'][0], int):
+            why = 'the tag byte is not written exactly once'
+        elif disp and disp not in got.get('write_int', []):
+            why = 'the displacement %d is not written' % disp
+        elif base and ('reg', base) not in got.get('write_reg', []):
+            why = 'the base register is not written'
+        elif index and (('reg', index) not in got.get('write_reg', []) or 8 not in got.get('write_uint', [])):
+            why = 'the index register / scale is not written'
+        elif (alias or nonalias) and not (('alias', alias) in got.get('write_name', []) and ('alias', nonalias) in got.get('write_name', [])):
+            why = 'the alias names (alias=%d, nonalias=%d) are not written' % (alias, nonalias)
+        n += 1
+        run.ob(rule, (disp, base, index, alias, nonalias), why is None,
+               {'disp/base/index/alias/nonalias': (disp, base, index, alias, nonalias), 'written': sorted(got)} if n % 8 == 1 or why else None)
+        if why:
+            run.violation(rule, f, 'memory operand fields', 'for a memory operand with disp=%d base=%d index=%d alias=%d nonalias=%d %s: the operand '
+                          'read back from the binary differs from the one written' % (disp, base, index, alias, nonalias, why), line=stmts[0]['l'])
+        elif isinstance(got['put_byte'][0], int):
+            fields = (bool(disp) or not (base or index), bool(base), bool(index), bool(alias or nonalias))
+            tags.setdefault(got['put_byte'][0], set()).add(fields)
+    for t, fs in sorted(tags.items()):
+        n += 1
+        ok = len(fs) == 1
+        run.ob(rule, ('tag', t), ok, {'tag': t, 'field sets': sorted(fs)})
+        if not ok:
+            run.violation(rule, f, 'tag %d ambiguous' % t, 'tag %d is written for different field sets %s (disp, base, index, alias): the reader '
+                          'cannot know which fields follow' % (t, sorted(fs)), line=stmts[0]['l'])
+    return n
